@@ -135,7 +135,10 @@ def replay_history(fam, rec, workroot: Path, tag):
                         problems.append({"kind": "stale", "detail": f"step {i}: exit 0 but font differs from the clean "
                                                                     f"build of {sorted(present)} opt={opt} ver={ver}"})
                 else:
-                    if fault and font.exists() and font.stat().st_mtime_ns >= t_start:
+                    # (a truncated Font.ttf left by the injected kill of the font-writing step itself is the fault, not a
+                    # font the failed build delivered)
+                    own_truncation = fault.get("op") == "Trunc" and fault.get("out") == "Font.ttf" if isinstance(fault, dict) else False
+                    if fault and not own_truncation and font.exists() and font.stat().st_mtime_ns >= t_start:
                         problems.append({"kind": "fresh_font_on_failure",
                                          "detail": f"step {i}: a step failed ({fault}) yet Font.ttf was freshly written"})
                 prev_ok = rc == 0
